@@ -14,3 +14,6 @@ open GrVerif.Props.C01
 #print axioms pass_states_total
 #print axioms pass_rulemap_total
 #print axioms accepted_pass_has_wellformed_tables
+#print axioms silf_subtable_total
+#print axioms silf_subtable_offsets_in_bounds
+#print axioms silf_table_total
